@@ -399,6 +399,11 @@ def lsp_sig(ctx: Ctx) -> List[Ob]:
             bp = [p for p in base.param_names() if p != base.self_name and p not in ("cls",)]
             gp = [p for p in g.param_names() if p != g.self_name and p not in ("cls",)]
             has_kwargs = g.args.kwarg is not None
+            from ..known_funcs import KNOWN_PARAMS
+
+            ref = KNOWN_PARAMS.get(f"{base.module}:{base.qualname}")
+            if ref is not None:
+                bp = [p for p in bp if p in ref]  # a new option of the base is not part of what any property states
             missing = [p for p in bp if p not in gp and not has_kwargs]
             extra_required = [p for p in g.required_params() if p not in bp and p != g.self_name and p not in ("cls",)]
             props = ["C05"] if name in ("save", "load", "_from_list") else ["C15"] if name in (
